@@ -401,6 +401,7 @@ inductive Op
   | blockerr (e : String)
   | globalorder
   | ctxq (e : String) (pair : Bool)      -- `ctx <e> err` / `ctx <e> pair`: read the entry's context now
+  | clock (ms : Nat)                     -- move the (virtual) clock anywhere, also backwards: nothing in the chain depends on it
 deriving Repr, Inhabited
 
 inductive Out
@@ -560,6 +561,7 @@ def step (s : State) : Op → State × Out
     match findEntry s e with
     | some r => (s, if pair then .cpair (s.cnote r.ctx).pair else .cerr (s.cnote r.ctx).err)
     | none => (s, .bad)
+  | .clock _ => (s, .none)
 
 def runOps (s : State) (ops : List Op) : State := ops.foldl (fun s o => (step s o).1) s
 
